@@ -8,11 +8,11 @@ C04 setup fresnel|angular nx ny dx dy lam z n q s        (q, s: a scalar or a pe
    -> ok M=[mx,my] cut=y0:y1:x0:x1|none branch=ir|tf slack=… regime=0|1 noevan=0|1 minrad=… nudelta=[…] nuzero=[…]
 C04 set distance|refractive_index|num_oversampling|zero_padding|wavelength v   -> ok   (a setter on the same object)
 C04 info          -> the setup line for the parameters now in force
-C04 tf ix iy      -> ok turns=[…]   (fresnel: sub-sample phases in turns mod 1)
-                   | ok rad=[…] evz=… evzold=…   (angular: sub-sample radicands (n/λ)² - ν²; decay distance of
-                                                   evanescent components, repaired and unrepaired code)
-C04 tfq qx qy     -> ok at=[ix,iy] turns=[…] | ok at=[ix,iy] rad=[…] evz=… evzold=…: the same for the sample that multiplies
-                      FFT bin (qy,qx), i.e. centred index `ifftshiftIdx` of it (what `modelD` uses)
+C04 tfq qx qy     -> the transfer-function sample that multiplies FFT bin (qy,qx), i.e. the one at the centred index
+                      (ix,iy) = `ifftshiftIdx` of the bin (what `modelD` uses):
+                      ok at=[ix,iy] turns=[…]   (fresnel: sub-sample phases in turns mod 1)
+                    | ok at=[ix,iy] rad=[…] evz=… evzold=…   (angular: sub-sample radicands (n/λ)² - ν²; decay distance
+                                                   of evanescent components, repaired and unrepaired code)
 C04 emb           -> ok rows=[…] cols=[…] padok=0|1: internal row of every input row, internal column of every input
                       column (`embRows`, `embCols` — the components of `cutoutEmb`)
 C04 stokesI [a,b,c,d] [xr,xi,yr,yi,zr,zi,wr,wi] -> ok I=… phys=0|1   (`stokesI`, `stokesPhysical`; stateless)
@@ -86,15 +86,6 @@ def step (st : St) : List String → St × String
     match st.p with
     | some p => (st, info p)
     | none => (st, "err value")
-  | ["tf", ix, iy] =>
-    match st.p, parseNat? ix, parseNat? iy with
-    | some p, some ix, some iy =>
-      if ix ≥ mx p || iy ≥ my p then (st, "err index") else
-      match p.kind with
-      | .fresnel => (st, s!"ok turns={showRatList (fresnelSubTurns p ix iy)}")
-      | .angular => (st, s!"ok rad={showRatList (angularSubRadicands p ix iy)} evz={showRat (evanescentZ p)} evzold={showRat (evanescentZOld p)}")
-    | none, some _, some _ => (st, "err value")
-    | _, _, _ => (st, "bad-op")
   | ["tfq", qx, qy] =>
     match st.p, parseNat? qx, parseNat? qy with
     | some p, some qx, some qy =>
